@@ -268,12 +268,19 @@ func runCheck(p *Prog, prop, tier string, timeout, workers int, verbose bool) in
 		addStruct("recover.covered", p.recoverSiteScan([]string{"/soyhtml"}))
 	case "C08", "C09":
 		addStruct("global.state", p.globalStateScan(renderPkgs))
+		if prop == "C09" {
+			// compilation and generation are part of C09 too: goroutines started there must be accounted for
+			addStruct("goroutine.covered", p.goStmtScan([]string{"/soyjs", "/soymsg", "/parsepasses", "/parse", "/template", "/ast", "/data", "/errortypes", "/soyhtml", ""}))
+		}
 	case "C13":
 		addStruct("global.state", p.globalStateScan([]string{"/soyjs", "/soymsg", "/parsepasses", "/parse", "/template", "/ast", ""}))
 		addStruct("goroutine.covered", p.goStmtScan([]string{"/soyjs", "/soymsg", "/parsepasses", "/parse", "/template", "/ast", "/data", "/errortypes", ""}))
 	case "C05":
 		// recursion on the input is bounded in depth (a stack overflow cannot be recovered from)
 		addStruct("stack.covered", p.stackCoverScan([]string{"/parse"}))
+	case "C18":
+		// the one trusted function the drain argument rests on has the shape it is trusted for
+		addStruct("trusted.shape", p.trustedShapeScan())
 	case "C10":
 		// ids and names must not depend on other messages or earlier compilations
 		addStruct("global.state", p.globalStateScan([]string{"/soymsg", "/parsepasses", "/ast"}))
